@@ -101,6 +101,55 @@ pub fn run(fam: &str, t: &mut Toks) -> Option<R<String>> {
                 let m: BytecodeMapped = ops.into_iter().collect();
                 Ok(format!("{} {}", hex_of(m.bytecode()), show_nats(m.op_indices())))
             }
+            "gparse" => {
+                // the group-level parser `<Group>::try_from_bytes`
+                let g = t.tok()?.to_string();
+                let bs = t.bytes()?;
+                t.done()?;
+                crate::gen_short::group_parse(&g, &bs).ok_or_else(|| "group".to_string())
+            }
+            "gopcode" => {
+                let g = t.tok()?.to_string();
+                let b = t.nat()?;
+                t.done()?;
+                crate::gen_short::group_opcode(&g, b as u8).ok_or_else(|| "group".to_string())
+            }
+            "mapseq" => {
+                // a history of operations on one `BytecodeMapped`: built from ops, then any sequence of
+                //   p <op> = push_op, g <ix> = op(ix), a = ops(), f <ix> = ops_from(ix), b = bytecode + indices
+                let ops = t.ops()?;
+                let mut m: BytecodeMapped = ops.into_iter().collect();
+                let n = t.nat()?;
+                let mut out = vec![];
+                for _ in 0..n {
+                    match t.tok()? {
+                        "p" => {
+                            let o = t.op()?;
+                            m.push_op(o);
+                            out.push("p".to_string());
+                        }
+                        "g" => {
+                            let ix = t.nat()?;
+                            out.push(match m.op(ix) {
+                                Some(o) => show_op(&o),
+                                None => "none".into(),
+                            });
+                        }
+                        "a" => out.push(show_ops(&m.ops().collect::<Vec<_>>())),
+                        "f" => {
+                            let ix = t.nat()?;
+                            out.push(match m.ops_from(ix) {
+                                Some(sl) => show_ops(&sl.ops().collect::<Vec<_>>()),
+                                None => "none".into(),
+                            });
+                        }
+                        "b" => out.push(format!("{} {}", hex_of(m.bytecode()), show_nats(m.op_indices()))),
+                        _ => return Err("step".into()),
+                    }
+                }
+                t.done()?;
+                Ok(out.join(" | "))
+            }
             "contains" => {
                 let e = t.nat()?;
                 let bs = t.bytes()?;
